@@ -229,7 +229,7 @@ def run(ctx):
         ctx.sample({"case": " ".join(cases[j]), "debug": impl["debug"][j], "release": impl["release"][j], "model": model[j]["fixed"], "spec": model[j]["spec"]})
     ctx.cov["trusted_base"] = ["Coq 8.16.1 kernel (coqc; vm_compute in Examples / witness lemmas)",
                                "Flocq 4.1.0 IEEE754.BinarySingleNaN as the definition of IEEE-754 binary64 arithmetic; its library axioms as printed by Print Assumptions",
-                               "F_rem (fmod on mantissa/exponent pairs) is a definition of this development, tied to Rust's f64 % by the correspondence",
+                               "F_rem (fmod on mantissa/exponent pairs) is defined by this development and proved to be the exact real fmod (C05_float_rem_is_fmod); that Rust's f64 % computes fmod is tied by the correspondence",
                                "extraction: ExtrOcamlBasic only; extract/num_driver.ml glue (decimal / bit-pattern I/O)",
                                "harness/num (operator impls of bytecode::BytecodePrimitive, catch_unwind), built with the repository's lock file in debug and release",
                                "the hardware's IEEE-754 double arithmetic and Rust's `as f64` (this is what the code runs on)"]
@@ -237,4 +237,6 @@ def run(ctx):
                        "a Rust panic and an anyhow error both count as 'execution stops with a failure' for C05 (C17 separates them); the failure class is part of the correspondence",
                        "shifts are bit shifts of the fixed-width value (lost high bits are not an overflow); only the shift amount can be out of range (DESIGN 5.5)",
                        "every NaN is one NaN (payload and sign of NaN are not compared)"]
-    core.proof_or_search(ctx, ok, ["C05_binop_exact", "C05_neg_exact", "C05_not_exact"], spec_fail > 0)
+    if ok and not ctx.quick():
+        nc.coqchk(ctx, ["MS.Props.C05"])
+    core.proof_or_search(ctx, ok, ["C05_binop_exact", "C05_binop_kind", "C05_neg_exact", "C05_not_exact", "C05_float_rem_is_fmod", "C05_int_to_double_rounds"], spec_fail > 0)
